@@ -245,7 +245,7 @@ func (g *Gen) hostile(label string, self []byte) []byte {
 		return pickFrom(g, label+"int", [][]byte{bytes.Repeat([]byte{0xff}, 8), bytes.Repeat([]byte{0xff}, 9), {1, 0, 0, 0, 0, 0, 0, 0, 0}, {1, 0, 0, 0, 0, 0, 0, 0, 1}, {0x7f, 0xff, 0xff, 0xff, 0xff, 0xff, 0xff, 0xff}})
 	case 4:
 		g.Shape = append(g.Shape, "big-count")
-		return new(big.Int).Lsh(big.NewInt(1), uint(20 + g.pick(label+"pow", 5))).Bytes()
+		return new(big.Int).Lsh(big.NewInt(1), uint(20+g.pick(label+"pow", 5))).Bytes()
 	case 5, 6:
 		toks := m.sortedTokens()
 		return []byte(toks[g.pick(label+"tok", len(toks))])
